@@ -95,6 +95,19 @@ func genLRU(r *Rng, tier string, n int, emit func(string)) {
 			emit("lru\t" + strconv.Itoa(size) + "\t" + strings.Join(ops, ";"))
 			continue
 		}
+		if c%8 == 5 {
+			// Add / Get only, at a small capacity: also run on the pointer-ring model of list.go by the driver
+			for i := 0; i < k+40; i++ {
+				key := strconv.Itoa(cr.Intn(keys))
+				if cr.Chance(55) {
+					ops = append(ops, "A"+key+":"+strconv.Itoa(cr.Intn(100)))
+				} else {
+					ops = append(ops, "G"+key)
+				}
+			}
+			emit("lru\t" + strconv.Itoa(size) + "\t" + strings.Join(ops, ";"))
+			continue
+		}
 		for i := 0; i < k; i++ {
 			key := strconv.Itoa(cr.Intn(keys))
 			switch x := cr.Intn(40); {
